@@ -243,6 +243,7 @@ def run(ctx: RuleContext, p: Program) -> None:
     ctx.try_rule(_c10.rule_view_sem, p, 'VIEW-SEM', 3 if ctx.tier == 'quick' else 4)
     from . import descsem as _ds
     ctx.try_rule(_ds.rule_desc_sem, p, 'DESC-SEM')
+    ctx.try_rule(_ds.rule_field_sem, p, 'FIELD-SEM')
     ctx.not_decided += ['full separator arithmetic for every (index, arity, position)', 'store block boundaries (C07)',
                         'identity of tokens outside the edit window (runtime)']
     ctx.assumptions += ['TokenStore.insert_after/insert_before/remove/splice semantics (C07)']
